@@ -369,6 +369,8 @@ def gen_op(rng, m: Model, swarm, nalg):
             b = a + rng.uniform(0.1, 0.35)
             Wn = [round(nyq * a, 6), round(nyq * (b + (0.6 if bad else 0.0)), 6)]
         op = {"op": k, "Wn": Wn}
+        if rng.random() < 0.3:
+            op["wn_as"] = rng.choice(["list", "ndarray"])  # Wn is documented as array_like
         r = rng.random()
         if r < 0.15 and btype == "lowpass":
             pass  # all defaults: order 8, lowpass
@@ -382,6 +384,9 @@ def gen_op(rng, m: Model, swarm, nalg):
     else:
         names = sorted(_alg_classes(m.kind))
         op = {"op": "add", "alg": rng.choice(names), "name": f"a{nalg}"}
+        if nalg and rng.random() < 0.35:
+            # the same instance added again: the only public way to hand it the setup's current data
+            op = {"op": "add", "readd": rng.randrange(nalg)}
     if swarm["faulty"] and k in ("decimate", "detrend", "filter") and rng.random() < swarm["pfault"]:
         op["fault"] = {
             "kind": "sci_exc",
@@ -403,7 +408,19 @@ def _call_real(setup, op):
     if k == "filter":
         kw = {n: op[n] for n in ("order", "btype") if n in op}
         Wn = op["Wn"]
-        return setup.filter_data(Wn=tuple(Wn) if isinstance(Wn, list) else Wn, **kw)
+        how = op.get("wn_as", "tuple")
+        if how == "ndarray":
+            arg = np.array(Wn, dtype=float)
+        elif how == "list":
+            arg = list(Wn) if isinstance(Wn, list) else Wn
+        else:
+            arg = tuple(Wn) if isinstance(Wn, list) else Wn
+        keep = np.array(arg, dtype=float, copy=True)
+        try:
+            return setup.filter_data(Wn=arg, **kw)
+        finally:
+            if not np.array_equal(np.asarray(arg, dtype=float), keep):
+                _S["wn_mutated"] = True
     if k == "rollback":
         return setup.rollback()
     raise AssertionError(k)
@@ -490,9 +507,21 @@ def run_case(seed, tier="quick", case=None, known=()):
         outcome = "ok"
         plan.reset()
         if k == "add":
-            nalg += 1
+            readd = None
+            if "readd" in op:
+                live = [b for b in bound if getattr(setup, "algorithms", {}).get(b[0]) is b[1]]
+                readd = live[op["readd"] % len(live)] if live else None
+                if readd is None:
+                    # nothing registered any more (e.g. after a rollback): plain add of a new instance
+                    op_alg, op_name = sorted(_alg_classes(m.kind))[0], f"a{nalg}"
+                else:
+                    inc("probe.same_instance_added_again")
+            else:
+                op_alg, op_name = op["alg"], op["name"]
+            if readd is None:
+                nalg += 1
             try:
-                alg = _make_alg(m.kind, op["alg"], op["name"])
+                alg = readd[1] if readd is not None else _make_alg(m.kind, op_alg, op_name)
                 setup.add_algorithms(alg)
             except Exception as e:
                 stop |= violate("kw.rejected", op, step, f"add_algorithms raised {type(e).__name__}: {e}")
@@ -504,9 +533,12 @@ def run_case(seed, tier="quick", case=None, known=()):
                 stop |= violate("bind.fs", op, step, f"algorithm.fs={getattr(alg, 'fs', None)!r} expected {m.fs!r}")
             if not _feq(getattr(alg, "dt", None), 1.0 / m.fs):
                 stop |= violate("bind.dt", op, step, f"algorithm.dt={getattr(alg, 'dt', None)!r} expected {1.0 / m.fs!r}")
-            if setup.algorithms.get(op["name"]) is not alg:
+            nm = readd[0] if readd is not None else op_name
+            if setup.algorithms.get(nm) is not alg:
                 stop |= violate("bind.data", op, step, "algorithm not registered under its name")
-            bound.append((op["name"], alg, _hash_handed(got)))
+            if readd is not None:
+                bound[:] = [b for b in bound if b[1] is not alg]
+            bound.append((nm, alg, _hash_handed(got)))
             if m.ndec or m.flags["filt"] or m.flags["detr"]:
                 inc("probe.add_after_preproc")
             if m.flags["rb"]:
@@ -602,6 +634,8 @@ def run_case(seed, tier="quick", case=None, known=()):
                     for o, d in kn:
                         violate(o, op, step, d, is_known=True)
         # invariants after every operation
+        if _S.pop("wn_mutated", False):
+            stop |= violate("user.mutated", op, step, "the Wn array passed to filter_data was modified in place")
         for i, a in enumerate(arrays):
             if h_array(owners[i]) != user_hash[i] or user_list[i] is not a:
                 stop |= violate("user.mutated", op, step, f"user array {i} changed")
